@@ -336,13 +336,13 @@ def gen_cases(ctx):
                 yield case
                 yield sib
                 continue
-        if platform == "ios" and toks[0] == "eq" and rng.random() < 0.15:
+        if platform == "ios" and toks[0] in ("eq", "neq") and rng.random() < 0.15:
             # repeated operands ('eq 7 7 9'): stored as given; only the denoted set is judged, not the text
             if len(toks) <= 3 and rng.random() < 0.5:  # small window with holes, as many repeats as holes
                 lo = grammar.rand_port(rng)
                 lo = min(lo, 65530)
                 keep = [lo] + [v for v in range(lo + 1, lo + 4) if rng.random() < 0.4] + [lo + 4]
-                toks = ["eq"] + [str(v) for v in keep]
+                toks = [toks[0]] + [str(v) for v in keep]
                 extra = [str(rng.choice(keep)) for _ in range(5 - len(keep))] or [str(lo)]
             else:
                 extra = [rng.choice(toks[1:]) for _ in range(rng.randint(1, 2))]
